@@ -38,7 +38,7 @@ off_t sync_file(const char *destination, const char *source,
 
   int in_fd = open(source, O_RDONLY);
   if (in_fd < 0) {
-    if (errno == ENOENT) {
+    if (errno == ENOENT || errno == ENOTDIR) {
       throw_static(messages.sync.source_does_not_exist, trace);
     } else if (errno == EACCES) {
       throw_static(messages.sync.source_permission_denied, trace);
